@@ -20,7 +20,7 @@ def _worker(task):
         eng = _ENG.get(key)
         if eng is None:
             if len(_ENG) > 3: _ENG.clear()
-            eng = llsym.Engine(_MOD[modkey], params=params, maxsteps=opts.get('maxsteps', 2000000), timeout_ms=opts.get('timeout_ms', 60000))
+            eng = llsym.Engine(_MOD[modkey], params=params, maxsteps=opts.get('maxsteps', 2000000), timeout_ms=opts.get('timeout_ms', 180000))
             eng.clock_step_us = opts.get('clock_step_us', 1000000)
             eng.maxsamples = opts.get('samples', 4)
             eng.simp = opts.get('simplify', False)
@@ -299,7 +299,7 @@ def run_check(a, prop, spec, workdir, seed, t_start):
                            'bound': bykey[k].get('bound', '')} for k, g in agg.items()],
             'functions_encoded': sorted(set(f for g in agg.values() for f in g['funcs']))[:400],
             'externals_modelled': sorted(set(f for g in agg.values() for f in g['externs'])),
-            'solver': 'z3 %s (python API, incremental, timeout 60 s/query)' % __import__('z3').get_version_string(),
+            'solver': 'z3 %s (python API, incremental, 10 s soft timeout, then a fresh solver with 180 s (or the instance's own limit))' % __import__('z3').get_version_string(),
             'solver_time_s': round(sum(g['tq'] for g in agg.values()), 2),
             'build_s': round(build_s, 1),
             'bounds': getattr(spec, 'BOUNDS', {}).get(tier, getattr(spec, 'BOUNDS', '')),
